@@ -346,10 +346,51 @@ let run_geo () =
   let pts = ntimes n nvec in
   List.iter (fun p -> pf "%s\n" (vec (geo_to_cartesian fl rf p))) pts
 
+
+(* interop: per callback the resolved requests of the protocol (resolved by the harness-independent
+   script interpreter of the model: kinds + times), printed as consequences + outcomes *)
+let str_conseq = function
+  | CComm (b, m, d) -> Printf.sprintf "comm %s %d %s" (if b then "bcast" else "send") (int_of_nat m)
+                         (match d with None -> "none" | Some x -> string_of_int (int_of_nat x))
+  | CGoto p -> "mob goto " ^ vec p
+  | CGotoGeo p -> "mob gotogeo " ^ vec p
+  | CSetSpeed v -> "mob speed " ^ hx v
+  | CTimer (n, ts) -> Printf.sprintf "timer %d %s" (int_of_nat n) (hx ts)
+  | CTrack (k, v) -> Printf.sprintf "track %d %d" (int_of_nat k) (int_of_nat v)
+
+let run_interop () =
+  (* node id, number of rules + rules (script language), then callbacks: kind [arg] time *)
+  let nid = nint () in
+  let nr = nint () in
+  let rules = ntimes nr read_rule in
+  let ncb = nint () in
+  let cbs = ntimes ncb (fun () ->
+    let t = nflt () in
+    let c = (match next () with
+      | "init" -> CbInit | "finish" -> CbFinish
+      | "timer" -> CbTimer (nnat ()) | "packet" -> CbPacket (nnat ())
+      | "telem" -> CbTelemetry (nvec ())
+      | x -> failwith ("cb: " ^ x)) in
+    let ntr = nint () in
+    let tracks = ntimes ntr (fun () -> let k = nnat () in let v = nnat () in RTrack (k, v)) in
+    (t, c, tracks)) in
+  let script = List.init (nid + 1) (fun i -> if i = nid then rules else []) in
+  let ps = ref counters0 in
+  let reqs = List.map (fun (t, c, tracks) ->
+    let (ps2, acts) = script_react fl script (nat_of_int nid) !ps t c in
+    ps := ps2;
+    List.map (fun a -> RAct a) acts @ tracks) cbs in
+  List.iter (fun (ret, outs) ->
+    pf "ret";
+    List.iter (fun c -> pf " | %s" (str_conseq c)) ret;
+    pf " ;";
+    List.iter (fun o -> pf " %s" (match o with IOk -> "ok" | INotImplemented -> "notimplemented" | IValueError -> "errvalue")) outs;
+    pf "\n") (interop_session fl [] reqs)
+
 (* ---- main ----------------------------------------------------------------------------------- *)
 let dispatch : (string * (unit -> unit)) list ref =
   ref [ ("el", run_el); ("sim", run_sim); ("mission", run_mission); ("disp", run_disp); ("trip", run_trip);
-        ("camera", run_camera); ("geo", run_geo) ]
+        ("camera", run_camera); ("geo", run_geo); ("interop", run_interop) ]
 
 let () =
   load stdin;
